@@ -12,9 +12,9 @@ LEVEL_NOTE = ("Proved over a byte-level model of the 8+8+4+4 print variants of p
               "file field ++ datetime field ++ line for text logs, event-log records and journal entries under both colour settings (C13_field_order), no options => exactly "
               "the message bytes (C13_plain), stripping escapes and per-line fields gives back the message (C13_strip, C13_strip_buf with the necessary 'ends in newline' "
               "hypothesis: C13_strip_buf_full_false), one separator after each message and none inside (C13_separator), colour adds only escapes "
-              "(C13_colour_only_escapes), ASCII names are padded to the common width (C13_align). False of the code, with witnesses: the accounting-record variant "
-              "without colour writes the datetime before the file name (C13_field_order_full_false) and -w pads by char count to a width in display columns "
-              "(C13_align_full_false). Lines split over read blocks: `hlParts` mirrors the loop of print_color_line_highlight_dt! over the lineparts literally and its "
+              "(C13_colour_only_escapes), with -w every printed name is padded to the widest printed name in display columns, for arbitrary names incl. wide characters "
+              "(C13_align_full_holds; unfolds the regenerated ALIGN_PADS_BY_COLUMNS; the char-count padding repaired as F9 is the counter-model "
+              "char_count_padding_misaligns); the prepend separator is literal in the datetime field (PREPEND_SEPARATOR_LITERAL regenerated; F17 repaired). Lines split over read blocks: `hlParts` mirrors the loop of print_color_line_highlight_dt! over the lineparts literally and its "
               "per-part body is proved equal to the body TRANSLATED from printers.rs on every run (hlPart_matches_source: the five cases, their comparisons, the bounds of "
               "every &slice[..], the colour of every write); for every partition of a line and every datetime span b<=e the writes are the line (C13_parts_bytes), byte i is "
               "written under the datetime colour iff b<=i<e and under the text colour otherwise (C13_parts_dt, C13_parts_dt_bytes), so the plain and counted streams are "
@@ -50,21 +50,32 @@ def scenarios(ctx, rng):
     return scs
 
 
-def align_check(sc, t):
-    """-w: every padded name must fill the same number of display columns"""
+def align_check(sc, t, out):
+    """-w, measured on the REAL stdout: every line must begin with one of the printed names padded with spaces to the
+    common width W = the widest printed name in display columns, then the prepend separator (was finding F9: the
+    padding counted chars; repaired, so any misalignment is a violation again)"""
     fm, al = t[0], t[1]
     if not (fm and al):
         return None
-    ffield, _, _ = pc.fields(sc, t)
-    cols = {}
-    wide = False
-    for p, (name, nch, width, psep) in ffield.items():
-        nm = name.decode()
-        cols[p] = pc.disp_width(nm) + max(0, width - nch)
-        wide = wide or pc.disp_width(nm) != len(nm)
-    if len(set(cols.values())) > 1:
-        return ('print:align-pads-by-char-count' if wide else 'print:align-mismatch',
-                f'display columns of the padded names {cols} for {[f["base"] for f in sc.files]}')
+    ffield, _, sepb = pc.fields(sc, t)
+    if not ffield or sepb:
+        # with a message separator the line starts are not the field starts; those runs are judged by strip_decor only
+        return None
+    names = [name.decode() for (name, _, _, _) in ffield.values()]
+    psep = next(iter(ffield.values()))[3]
+    W = max(pc.disp_width(n) for n in names)
+    heads = [n.encode() + b' ' * (W - pc.disp_width(n)) + psep for n in names]
+    plain = pc.ESC_RE.sub(b'', out)
+    wide = any(pc.disp_width(n) != len(n) for n in names)
+    # only the first line of every message is looked at when a message's later lines could begin with anything:
+    # every printed line carries the field, so all of them are checked
+    for ln in plain.split(b'\n'):
+        ln = ln.lstrip(b'\0')     # the NUL written after every accounting record (known finding F12 of C08) starts the next line
+        if not ln:
+            continue
+        if not any(ln.startswith(h) for h in heads):
+            return ('print:align-pads-by-char-count' if wide else 'print:align-mismatch',
+                    f'line {ln[:60]!r} does not begin with a printed name padded to {W} display columns + separator {psep!r}; names {names}')
     return None
 
 
@@ -99,7 +110,7 @@ def oracle_and_corr(ctx):
                     if ok2:
                         sig = 'print:fixedstruct-datetime-before-file'
                 failures.append({'signature': sig, 'detail': det, 'case': case})
-            al = align_check(sc, t)
+            al = align_check(sc, t, out) if ok else None
             if al:
                 failures.append({'signature': al[0], 'detail': al[1], 'case': case})
             reqs.append(pc.run_request(sc, t, cols))
